@@ -429,14 +429,16 @@ impl DiskCache {
             let ghost w0 = items@;
 //@ after `let item = items.swap_remove(item_idx);`
             proof {
-                assert(items@ =~= swap_removed(w0, item_idx as int));
+                // property-carrying: what `swap_remove` did to the list, in the terms the byte accounting is stated in
+                /*@C13*/ assert(items@ =~= swap_removed(w0, item_idx as int));
                 lemma_bytes_swap_remove(w0, item_idx as int);
                 lemma_bytes_nonneg(items@);
             }
 //@ before `state.num_items -= num_items_rm;`
         let ghost v1 = *items;
         proof {
-            assert(state.inner@ == m0.insert(*key, v1));
+            // property-carrying: ties the guarded map after the removals to the spec map the counters are compared with
+            /*@C13*/ assert(state.inner@ == m0.insert(*key, v1));
             lemma_msum_insert(m0, *key, v1, true); lemma_msum_insert(m0, *key, v1, false);
             lemma_bytes_nonneg(v1@);
         }
@@ -445,7 +447,8 @@ impl DiskCache {
 //@ before `Ok((overlapping_item_paths, evicted_paths))`
         let ghost v3 = *item_set;
         proof {
-            assert(state.inner@ == m2.insert(*key, v3));
+            // property-carrying: the map after the registration is the spec map with the new item appended
+            /*@C13*/ assert(state.inner@ == m2.insert(*key, v3));
             lemma_msum_insert(m2, *key, v3, true); lemma_msum_insert(m2, *key, v3, false);
             let base = if m2.contains_key(*key) { m2[*key]@ } else { Seq::<CacheItem>::empty() };
             assert(v3@.drop_last() =~= base);
@@ -603,6 +606,71 @@ spec fn is_item_file(e: DirEntry, ci: CacheItem) -> bool {
             (file_result is Ok && parse_name(e.name@) is Some && is_item_file(e, ci) && ci.len <= capacity && ci.len <= DEFAULT_CHUNK_CACHE_CAPACITY)
                 ==> r == Ok::<Option<CacheItem>, ChunkCacheError>(Some(ci)) }),
 //@ end
+
+// ---- the scan of ONE key directory (inner loop of initialize_state), with the counters and the per-key list as parameters ----
+// `std::fs::ReadDir` stub: an iterator with no Verus specification (R4i desugars the `for`); `left` bounds what it can still yield
+pub struct ReadDir { pub left: Ghost<int> }
+impl ReadDir {
+    #[verifier::external_body]
+    fn into_iter(self) -> (r: ReadDir) ensures r.left@ == self.left@ { unimplemented!() }
+    #[verifier::external_body]
+    fn next(&mut self) -> (r: Option<io::Result<DirEntry>>)
+        ensures r is Some ==> old(self).left@ > 0 && final(self).left@ == old(self).left@ - 1, r is None ==> final(self).left@ == old(self).left@
+    { unimplemented!() }
+}
+impl CacheState {
+//@ extract chunk_cache/src/disk.rs in `impl CacheState` fn new
+//@ ret r
+//@ contract
+        ensures r.inner == state, r.num_items == num_items, r.total_bytes == total_bytes,
+//@ end
+}
+impl DiskCache {
+// The region is the loop over one key directory plus the statement that hands the per-key list to the state.  Its normal exit is
+// packed as the state the scan would return if it ended here (R8 epilogue), so EVERY way out of the region — the early return when
+// 2*capacity is reached, falling out of the loop, and (R8c) a `continue` of an enclosing loop — must leave counters that agree with
+// what is tracked.  Errors leave no state.
+//@ extract chunk_cache/src/disk.rs in `impl DiskCache` region initialize_state
+//@ from `for item in key_readdir {`
+//@ to `if !items.is_empty() { state.insert(key, items); }`
+//@ sig `fn init_scan_key_dir(key_readdir: ReadDir, capacity: u64, max_num_bytes: u64, mut total_bytes: u64, mut num_items: usize, mut items: Vec<CacheItem>, mut state: HashMap<Key, Vec<CacheItem>>, key: Key) -> (r: Result<CacheState, ChunkCacheError>)`
+//@ epilogue `Ok(CacheState::new(state, num_items, total_bytes))`
+//@ rules cacheacct.R4i cacheacct.R8c
+//@ prefix
+    #[verifier::exec_allows_no_decreases_clause]
+//@ contract
+        requires
+            cap_ok(capacity), max_num_bytes == 2 * capacity,
+            items@.len() == 0, !state@.contains_key(key),          // every key directory is visited once (distinct names, distinct keys)
+            num_items as int == msum(state@, false), total_bytes as int == msum(state@, true), total_bytes < max_num_bytes,
+            num_items + key_readdir.left@ <= usize::MAX,           // a directory is finite
+        ensures
+            /*@C13*/ r matches Ok(st) ==> inv(st, capacity),
+//@ body-start
+        let ghost st0 = state@;
+        proof { broadcast use axiom_key_model; assert(items_bytes(items@) == 0); }
+//@ loop 1
+            invariant
+                cap_ok(capacity), max_num_bytes == 2 * capacity, state@ == st0, !st0.contains_key(key),
+                /*@C13*/ num_items as int == msum(st0, false) + items@.len(),
+                /*@C13*/ total_bytes as int == msum(st0, true) + items_bytes(items@),
+                total_bytes < max_num_bytes,
+                num_items + vx_it1.left@ <= usize::MAX,
+//@ before `items.push(VerificationCell::new_unverified(cache_item));`
+            proof { lemma_bytes_push(items@, cache_item); }
+//@ before `state.insert(key, items); return`
+                let ghost k0 = key; let ghost it0 = items;
+                proof { broadcast use axiom_key_model; }
+                proof { lemma_msum_insert(st0, key, items, true); lemma_msum_insert(st0, key, items, false); }
+//@ before `return Ok(CacheState::new(state, num_items, total_bytes)); }`
+                proof { /*@C13*/ assert(state@ == st0.insert(k0, it0)); }   // property-carrying: the state now tracks exactly the pending list under this key
+//@ before `if !items.is_empty() {`
+            let ghost k0 = key; let ghost it0 = items;
+            proof { lemma_msum_insert(st0, key, items, true); lemma_msum_insert(st0, key, items, false); }
+//@ after `if !items.is_empty() { state.insert(key, items);`
+            proof { /*@C13*/ assert(state@ == st0.insert(k0, it0)); }
+//@ end
+}
 
 //@ extract chunk_cache/src/disk.rs fn index_of
 //@ ret r
